@@ -2,6 +2,7 @@ package main
 
 import (
 	"bytes"
+	"crypto/elliptic"
 	"fmt"
 	"math/big"
 	"sync"
@@ -87,6 +88,24 @@ func runC13(c *Ctx) {
 	exRA := mkKey("std-rA", hx("D4DE15474DB74D06491C440D305E012400990F3E390C7E87153C12DB2EA60BB3"))
 	exRB := mkKey("std-rB", hx("7E07124814B309489125EAED101113164EBF0F3458C5BD88335C1F9D596243D6"))
 	runCase(kxCase{"standard-example", exA, exB, exRA, exRB, ref.DefaultUID, ref.DefaultUID, 16})
+	// identity lengths, densely: ZA hashes ENTL || ID || a || b || G || P (194 bytes around the identity), so the hash's
+	// block and padding boundaries fall at identity lengths like 53, 54, 117, 118 — every length 0..200 for either side
+	{
+		ri := c.Rng("id-sweep")
+		for l := 0; l <= 200; l++ {
+			if !c.Thorough && l > 70 && l%2 == 0 && l != 118 && l != 182 {
+				continue
+			}
+			ida, idb := ri.Bytes(l), []byte("bob")
+			if l%2 == 1 {
+				ida, idb = []byte("alice"), ri.Bytes(l)
+			}
+			runCase(kxCase{fmt.Sprintf("kx/identity-length-sweep/%d", l/20*20), exA, exB, exRA, exRB, ida, idb, 16})
+			if l >= 40 && l <= 130 {
+				runCase(kxCase{fmt.Sprintf("kx/identity-length-sweep/both/%d", l/20*20), exA, exB, exRA, exRB, ri.Bytes(l), ri.Bytes(l), 24})
+			}
+		}
+	}
 	rep.Sample(map[string]interface{}{"kind": "GM/T 0003.5 example", "dA": exA.d.Text(16), "dB": exB.d.Text(16), "rA": exRA.d.Text(16), "rB": exRB.d.Text(16), "K": "6C89347354DE2484C60B4AB1FDE4C6E5"})
 
 	keys := keyClasses(c.Rng("keys"), c.Q(6, 40), true)
@@ -274,18 +293,36 @@ func runC13(c *Ctx) {
 		r := c.Rng("hostile")
 		a, b, ra := keys[0], keys[1], keys[2]
 		type hp struct {
-			cls  string
-			x, y *big.Int
+			cls   string
+			x, y  *big.Int
+			curve elliptic.Curve // nil: the SM2 curve object
 		}
 		var hs []hp
 		for i := 0; i < c.Q(20, 300); i++ {
 			x, y, _ := findInvalidCurvePoint(r)
-			hs = append(hs, hp{"off-curve(other b')", x, y})
+			hs = append(hs, hp{cls: "off-curve(other b')", x: x, y: y})
 		}
-		hs = append(hs, hp{"(0,0)", new(big.Int), new(big.Int)},
-			hp{"G.x,G.y+1", new(big.Int).Set(ref.Gx), new(big.Int).Add(ref.Gy, big.NewInt(1))})
+		hs = append(hs, hp{cls: "(0,0)", x: new(big.Int), y: new(big.Int)},
+			hp{cls: "G.x,G.y+1", x: new(big.Int).Set(ref.Gx), y: new(big.Int).Add(ref.Gy, big.NewInt(1))})
+		// a public-key struct that names ANOTHER curve (as a converted crypto/ecdsa key does) with a point of that curve:
+		// the exchange is over the SM2 curve whatever the struct says
+		for _, cv := range []elliptic.Curve{elliptic.P256(), elliptic.P224(), elliptic.P384()} {
+			kx, ky := cv.ScalarBaseMult(r.Bytes(24))
+			hs = append(hs, hp{cls: "point-of-" + cv.Params().Name + "-in-a-struct-naming-that-curve", x: kx, y: ky, curve: cv})
+		}
+		{
+			x, y, _ := findInvalidCurvePoint(r)
+			hs = append(hs, hp{cls: "off-curve-point-in-a-struct-with-nil-curve", x: x, y: y, curve: nilCurve{}})
+		}
 		for i, h := range hs {
 			rpub := &sm2.PublicKey{Curve: sm2.P256Sm2(), X: h.x, Y: h.y}
+			switch h.curve.(type) {
+			case nil:
+			case nilCurve:
+				rpub.Curve = nil
+			default:
+				rpub.Curve = h.curve
+			}
 			w := map[string]interface{}{"peer_ephemeral_x": h.x.Text(16), "peer_ephemeral_y": h.y.Text(16), "class": h.cls}
 			for role := 0; role < 2; role++ {
 				var k []byte
@@ -344,3 +381,6 @@ func kxKlenCls(k int) string {
 		return fmt.Sprint(k)
 	}
 }
+
+// nilCurve marks "leave the Curve field nil" in the hostile-ephemeral table.
+type nilCurve struct{ elliptic.Curve }
